@@ -35,7 +35,9 @@ RULE = (
     "of which at least one is ineligible; distinct by (history, decision index). (defer_cap) a "
     "consumer that announces k inputs one by one, each built by its own optional step, with "
     "cap c in 1..3: the build terminates, the consumer starts min(k, c) + 1 times and ends "
-    "FAILED iff k > c; distinct by (k, c, njob, schedule)."
+    "FAILED iff k > c; distinct by (k, c, njob, schedule). (swallowed_amend) 8 enumerated "
+    "projects whose plan ignores a refused amend() of a missing path and then (or not) declares "
+    "the directory of that path a static tree, keep-going on/off, cap 1-2: the build must end."
 )
 ASSUMPTIONS = [
     "The definitions are those written in scheduler.py/step.py comments (FILL_SAFE_UPDATE, "
@@ -184,6 +186,57 @@ async def check_defer(case, rec, ctx):
         H.cleanup_dir(ctx, d)
 
 
+# ---------------------------------------------------------------------------------------------
+# a plan that carries on after a failed amend()
+
+
+def _swallow_cases(ctx):
+    cases = []
+    for keep_going in (False, True):
+        for cap in (1, 2):
+            for tree_after in (True, False):
+                cases.append({"keep_going": keep_going, "cap": cap, "tree_after": tree_after,
+                              "njob": 1 + (cap % 2)})
+    return [c for k, c in enumerate(cases) if k % ctx.nworkers == ctx.worker]
+
+
+async def check_swallow(case, rec, ctx):
+    """The plan announces an input that does not exist, ignores the refusal (a script that
+    catches InputNotFoundError) and, optionally, then declares the directory of that path a
+    static tree. Whatever the plan does, the build has to end, and the plan may not be started
+    more than cap + 1 times in a row without anything else happening."""
+    d = ctx.scratch.fresh("swallow")
+    os.chdir(d)
+    try:
+        items = [["chaos", ["amend_swallow", {"inp": ["cz/missing.txt"]}]]]
+        if case["tree_after"]:
+            items.append(["chaos", ["static_raw", ["cz/"], [], []]])
+        spec = {"sources": {"cz/keep.txt": "keep\n"}, "steps": {}, "env": {},
+                "plans": {"plan.py": {"workdir": ".", "items": items}}, "static_style": {}}
+        build = {"njob": case["njob"], "keep_going": case["keep_going"], "do_clean": True,
+                 "resources": None, "defer_cap": case["cap"], "choices": []}
+        r, _ = await H.run_stage(spec, build, H.Ledger(), set(), timeout=6.0)
+        starts = r.result.commands.count("./plan.py")
+        rec.event(f"swallow:keep_going={int(case['keep_going'])},tree_after="
+                  f"{int(case['tree_after'])}")
+        if r.result.timed_out:
+            if starts > case["cap"] + 5:
+                raise Violation(
+                    f"{PROPERTY}/build-does-not-terminate/failed-step-restarted-by-its-own-"
+                    "static-tree",
+                    f"--defer-cap={case['cap']}, keep_going={case['keep_going']}: the plan was "
+                    f"started {starts} times in 6 s and the build phase did not end")
+            check_serve_health(PROPERTY, r, 0)
+        check_serve_health(PROPERTY, r, 0)
+        if starts > case["cap"] + 2:
+            raise Violation(f"{PROPERTY}/defer-cap-not-applied",
+                            f"plan started {starts} times with --defer-cap={case['cap']}")
+        rec.mark_nontrivial(case, sample=dict(case, starts=starts))
+    finally:
+        os.chdir(ctx.scratch.root)
+        H.cleanup_dir(ctx, d)
+
+
 def subchecks(tier):
     big = tier == "thorough"
     return [
@@ -191,6 +244,7 @@ def subchecks(tier):
                  examples=120_000 if big else 3_000),
         SubCheck("defer_cap", check_defer, strategy=_defer_cases,
                  examples=20_000 if big else 600),
+        SubCheck("swallowed_amend", check_swallow, cases=_swallow_cases, examples=8),
     ]
 
 
